@@ -235,8 +235,9 @@ func (m *Muxer) WriteData(d *MuxerData) (int, error) {
 
 		if writeAf {
 			pkt.AdaptationField = d.AdaptationField
-			// one byte for adaptation field length field
-			pktLen += 1 + int(calcPacketAdaptationFieldLength(d.AdaptationField))
+			// length byte included. The size is not computed on 8 bits, an adaptation field that is too big must not be taken
+			// for a small one
+			pktLen += packetAdaptationFieldSize(d.AdaptationField)
 			writeAf = false
 		}
 
